@@ -170,135 +170,6 @@ fn f64_ceiling_sweep(s: &mut Session, r: &mut Rng, n: u64) {
     s.oracle_only(format!("f64 ceiling sweep: {} random divisors + boundary grid, all below 2^53", n), true);
 }
 
-/// ORACLE-ONLY stream (the drawing models are single-column): texts made of DOUBLE-WIDTH characters
-/// only, on EVEN terminal widths (no character straddles the right edge: that case, D20, stays out of
-/// scope), a single bar; the recorded TermLike calls are replayed on the vt100 crate, which knows
-/// wide characters.  After every painted draw the visible screen must be  log rows ++ frame rows
-/// with a line of k wide characters occupying ceil(2k/W) rows (so erasing after a shrink /
-/// finish_and_clear is exact), and the cursor must be at the right edge of the last frame row.
-/// Class 'wide-text-rows-miscounted'.
-fn wide_text_stream(s: &mut Session, r: &mut Rng, n: usize) {
-    const WIDE: [char; 6] = ['進', '捗', '状', '況', '確', '認'];
-    fn cw(c: char) -> usize {
-        if (c as u32) >= 0x1100 {
-            2
-        } else {
-            1
-        }
-    }
-    fn rows_of(line: &str, w: usize) -> Vec<String> {
-        let mut out = vec![String::new()];
-        let mut col = 0;
-        for c in line.chars() {
-            if col + cw(c) > w {
-                out.push(String::new());
-                col = 0;
-            }
-            out.last_mut().unwrap().push(c);
-            col += cw(c);
-        }
-        out.iter().map(|x| x.trim_end().to_string()).collect()
-    }
-    for i in 0..n {
-        let w = *r.pick(&[4u16, 6, 8, 10, 20]);
-        let h = 40u16;
-        let wu = w as usize;
-        let two = r.chance(1, 2);
-        let tmpl = if two { vec![TPart::Msg, TPart::NewLine, TPart::Pos] } else { vec![TPart::Msg] };
-        let wide = |r: &mut Rng, k: usize| -> String { (0..k).map(|_| *r.pick(&WIDE)).collect() };
-        let mut ops: Vec<Op> = vec![];
-        let nops = r.range(3, 8);
-        for _ in 0..nops {
-            let k = match r.below(6) {
-                0 => wu / 2,
-                1 => wu / 2 + 1,
-                2 => wu,
-                3 => wu + 1,
-                _ => r.below(wu as u64 + 3) as usize,
-            };
-            ops.push(match r.below(8) {
-                0..=3 => Op::SetMsg(0, wide(r, k)),
-                4 => Op::Println(0, if r.chance(1, 2) { wide(r, k) } else { "log".into() }),
-                5 => Op::Tick(0),
-                6 => Op::Inc(0, 1),
-                _ => Op::ForceDraw(0),
-            });
-        }
-        ops.push(if r.chance(1, 2) { Op::Finish(0, Fin::AndClear) } else { Op::Finish(0, Fin::AndLeave) });
-        let case = Case {
-            w,
-            h,
-            fail_at: vec![],
-            fail_from: None,
-            mp: TInit::Hidden,
-            bars: vec![BarInit { len: Some(9), fin: Fin::AndLeave, tmpl, target: TInit::Term(None) }],
-            ops: ops.into_iter().enumerate().map(|(j, o)| ((j as u64 + 1) * 1_000_000_000, o)).collect(),
-        };
-        let obs = run_case(&case);
-        let desc = format!("WIDE {}", describe(&case));
-        let mut vt = Vt100::new(w, h);
-        let mut log: Vec<String> = vec![];
-        let mut hidden = false;
-        let mut bad: Option<String> = None;
-        for ((_, op), o) in case.ops.iter().zip(obs.iter()) {
-            if let Some(p) = &o.panic {
-                bad = Some(format!("panic: {p}"));
-                break;
-            }
-            match op {
-                Op::Println(_, m) => log.extend(m.lines().map(|x| x.to_string())),
-                Op::Finish(_, f) => hidden = matches!(f, Fin::AndClear),
-                _ => {}
-            }
-            let fed = {
-                let v = &mut vt;
-                catch(|| v.feed(&o.emitted)).is_ok()
-            };
-            if !fed {
-                break;
-            }
-            if !o.emitted.iter().any(|x| *x == verif_harness::spy::TOp::Flush) {
-                continue;
-            }
-            let g = match &o.getters[0] {
-                Some(g) => g.clone(),
-                None => break,
-            };
-            let mut want: Vec<String> = log.iter().flat_map(|l| rows_of(l, wu)).collect();
-            let mut frame_rows = 0;
-            if !hidden {
-                let mut fr = rows_of(&g.msg, wu);
-                if two {
-                    fr.extend(rows_of(&g.pos.to_string(), wu));
-                }
-                frame_rows = fr.len();
-                want.extend(fr);
-            }
-            while want.last().map_or(false, |x| x.is_empty()) {
-                want.pop();
-            }
-            let mut got = vt.visible_rows();
-            while got.last().map_or(false, |x| x.is_empty()) {
-                got.pop();
-            }
-            s.count("wide_text_screen_checks");
-            let (_, col) = vt.cursor();
-            if got != want {
-                bad = Some(format!("after {:?}: the screen shows {:?} but log ++ frame is {:?}", op, got, want));
-                break;
-            }
-            if frame_rows > 0 && col != wu {
-                bad = Some(format!("after {:?}: the cursor is at column {col}, not at the right edge of the last frame row (screen {:?})", op, got));
-                break;
-            }
-        }
-        if let Some(d) = bad {
-            s.fail("wide-text-rows-miscounted", d, desc.clone());
-        }
-        s.oracle_only(desc, i % 1 == 0);
-    }
-}
-
 fn main() {
     let a = args();
     let mut s = Session::new(&a, "C19", COQ_HEADER, COQ_CASE_TY, COQ_CHECKER);
@@ -323,11 +194,16 @@ fn main() {
         cfg.w_log = 10;
         cfg.w_finish = 10;
         cfg.w_struct = 30;
-        cfg.bottom = false;
+        cfg.bottom = i % 4 == 1; // a quarter of the MultiProgress cases may switch to MultiProgressAlignment::Bottom
         cases.push(gen_multi_case(&mut r, &cfg));
     }
-    run_sys_cases(&mut s, &cases, &|c, _| c.ops.len() >= 4);
+    // kept rows of finished, dropped bars: checked under Top alignment; under Bottom alignment their
+    // misplacement is the C04 finding D22 (checked by bin c04), not a C19 matter
+    let (bottom_cases, top_cases): (Vec<Case>, Vec<Case>) =
+        cases.into_iter().partition(|c| c.ops.iter().any(|(_, o)| matches!(o, Op::SetAlign(true))));
+    run_sys_cases(&mut s, &top_cases, &|c, _| c.ops.len() >= 4);
+    verif_harness::sysoracle::run_sys_cases_mode(&mut s, &bottom_cases, &|c, _| c.ops.len() >= 4, false);
     f64_ceiling_sweep(&mut s, &mut r, if a.thorough { 200_000 } else { 20_000 });
-    wide_text_stream(&mut s, &mut r, if a.thorough { 2000 } else { 250 });
+    verif_harness::sysoracle::wide_text_stream(&mut s, &mut r, if a.thorough { 2000 } else { 250 });
     s.finish();
 }
